@@ -1,6 +1,8 @@
 """Helpers shared by the property rule sets."""
 from __future__ import annotations
 
+import ast
+
 import re
 from typing import Any, Dict, List, Optional
 
@@ -78,6 +80,15 @@ def exception_fields(env, exc: V) -> Dict[str, Any]:
     res = interp.explore(setup)
     if not res:
         return {}
+    # properties of the exception class: what a caller reads is the getter's result
+    props = []
+    for cq in repo.mro(q):
+        cinfo = repo.classes.get(cq)
+        if cinfo is None:
+            continue
+        for n, d in cinfo.all_defs:
+            if isinstance(d, (ast.FunctionDef, ast.AsyncFunctionDef)) and any(ast.unparse(x) == "property" for x in d.decorator_list) and n not in props:
+                props.append(n)
     # all paths must agree on the stored attributes
     out: Optional[Dict[str, Any]] = None
     for path in res:
@@ -85,6 +96,12 @@ def exception_fields(env, exc: V) -> Dict[str, Any]:
         for ev in path.events:
             if ev.kind == "store_attr" and ev.data.get("obj") == "exc":
                 attrs[ev.data["attr"]] = _plain(ev.data["value"])
+        if props and len(res) == 1:
+            for n in props:
+                try:
+                    attrs[n] = _plain(interp.getattr_v(holder["obj"], n, ci.module))
+                except Exception:
+                    attrs[n] = "<unreadable>"
         if out is None:
             out = attrs
         else:
